@@ -44,6 +44,27 @@ def if_fn(
     return expander(arg2).strip()
 
 
+NUMERIC_STRING_RE = re.compile(
+    r"[+-]?([0-9]+\.?[0-9]*|\.[0-9]+)([eE][+-]?[0-9]+)?\Z"
+)
+INTEGER_STRING_RE = re.compile(r"[+-]?[0-9]+\Z")
+
+
+def mw_equal(a: str, b: str) -> bool:
+    """The comparison of #ifeq and #switch: two (trimmed) strings that both
+    are numbers are compared numerically, anything else as text."""
+    if a == b:
+        return True
+    if NUMERIC_STRING_RE.match(a) and NUMERIC_STRING_RE.match(b):
+        if INTEGER_STRING_RE.match(a) and INTEGER_STRING_RE.match(b):
+            return int(a) == int(b)
+        try:
+            return float(a) == float(b)
+        except (ValueError, OverflowError):
+            return False
+    return False
+
+
 def ifeq_fn(
     ctx: "Wtp", fn_name: str, args: list[str], expander: Callable[[str], str]
 ) -> str:
@@ -52,7 +73,7 @@ def ifeq_fn(
     arg1: str = args[1] if len(args) >= 2 else ""
     arg2: str = args[2] if len(args) >= 3 else ""
     arg3: str = args[3] if len(args) >= 4 else ""
-    if expander(arg0).strip() == expander(arg1).strip():
+    if mw_equal(expander(arg0).strip(), expander(arg1).strip()):
         return expander(arg2).strip()
     return expander(arg3).strip()
 
@@ -115,7 +136,7 @@ def switch_fn(
         m = re.match(r"(?s)^([^=<]*)=(.*)$", arg)
         if m is None:
             last = expander(arg).strip()
-            if last == val:
+            if mw_equal(last, val):
                 match_next = True
             if last.lower() == "#default":
                 next_val_is_default = True
@@ -125,7 +146,7 @@ def switch_fn(
             defval = v
             next_val_is_default = False
         k = expander(k).strip()
-        if k == val or match_next:
+        if mw_equal(k, val) or match_next:
             return expander(v).strip()
         if k.lower() == "#default":
             # No need to touch next_val_is_default, v is guaranteed
